@@ -54,6 +54,33 @@ def run_property(pid, tier, seed, replay=None):
             if extra:
                 ctx.violation('axioms', 'theorems depend on axioms outside the standard library: %s' % sorted(extra),
                               {'print_assumptions': out[-3000:]}, no_input=True)
+    # ---- thorough tier: independent re-check of the compiled property file and everything it depends on
+    if tier == 'thorough' and prop_ok and not replay:
+        import subprocess
+        mod_name = 'Zepid.' + prop_v[len('theories/'):-2].replace('/', '.')
+        try:
+            p = subprocess.run(['timeout', '2400', 'coqchk', '-silent', '-o', '-Q', os.path.join(common.COQ, 'theories'), 'Zepid',
+                                '-Q', os.path.join(common.COQ, 'gen'), 'ZepidGen', mod_name],
+                               stdout=subprocess.PIPE, stderr=subprocess.STDOUT, text=True)
+            out = p.stdout
+            tail = out[out.find('* Theory'):] if '* Theory' in out else out[-1500:]
+            ctx.extra['coqchk'] = {'exit': p.returncode, 'summary': tail[-2500:]}
+            if p.returncode == 124:
+                ctx.notes.append('coqchk timed out after 2400 s (not judged)')
+            elif p.returncode != 0:
+                ctx.violation('coqchk', 'coqchk rejected %s: %s' % (mod_name, out[-600:]), {'output': out[-3000:]}, no_input=True)
+            else:
+                import re as _re
+                for sec in ('relying on type-in-type', 'relying on unsafe (co)fixpoints', 'whose positivity is assumed'):
+                    m = _re.search(_re.escape(sec) + r':\s*(.*)', out)
+                    if m and '<none>' not in m.group(1):
+                        ctx.violation('coqchk', 'coqchk reports constants %s: %s' % (sec, m.group(1)[:200]), {'output': tail}, no_input=True)
+                ax = _re.findall(r'^\s{4}(\S+)\s*$', tail, flags=_re.M)
+                bad_ax = [a for a in ax if a.split('.')[-1] not in {x.split('.')[-1] for x in STD_AXIOMS}]
+                if bad_ax:
+                    ctx.violation('coqchk-axioms', 'coqchk lists axioms outside the standard library: %s' % bad_ax, {'output': tail}, no_input=True)
+        except OSError as e:
+            ctx.notes.append('coqchk not run: %r' % (e,))
     # ---- the run itself (search with the thorough budget when a tie is broken)
     if ctx.broken_ties and tier == 'quick':
         ctx.quick = False
